@@ -385,7 +385,10 @@ Definition duplicate (st : cstate) : cstate :=
 
 Section Macro.
   (* evaluation of an unquoted expression in a scope chain (abstract but for symbols) *)
-  Variable eval_in : scope -> value -> option value.
+  (* ... by the duplicate, which SHARES the caller's macro table (environment.go Duplicate:
+     dupenv.macros = env.macros): code compiled while the body runs -- call arguments are
+     compiled at run time -- sees the same macros as the caller, also those defined later *)
+  Variable eval_in : (Z -> option macro) -> scope -> value -> option value.
   (* the rest of the code generator (not modelled): code for a form, or a compile error, in a
      generator context [gctx] = everything the Generator object carries at the call site
      (scopes to leave for break/continue/tail jumps, Tail, funcname, knownFunctions, the loop
@@ -397,10 +400,10 @@ Section Macro.
   (* Apply(macro, args) in the duplicate: parameters bound to the UNEVALUATED argument forms
      in a function scope above the global scope, then the body's template code runs on the
      duplicate's empty data stack. *)
-  Definition expand_in (dup : cstate) (m : macro) (args : list value) : option value :=
+  Definition expand_in (mt : Z -> option macro) (dup : cstate) (m : macro) (args : list value) : option value :=
     if Nat.eqb (length args) (length (m_params m)) then
       let sc := combine (m_params m) args ++ global_of dup in
-      match run (eval_in sc) (gen_sq (reify (m_body m))) (c_data dup) with
+      match run (eval_in mt sc) (gen_sq (reify (m_body m))) (c_data dup) with
       | Done (IVal x :: _) => Some x
       | _ => None
       end
@@ -414,7 +417,7 @@ Section Macro.
     : cstate * option (list Z) :=
     match macros sym with
     | Some m =>
-        match expand_in (duplicate st) m args with
+        match expand_in macros (duplicate st) m args with
         | Some e => (st, generate ctx e)
         | None => (st, None)
         end
